@@ -353,7 +353,45 @@ func runLoad(seed uint64, scale int, out string, _ string) *summary {
 					}
 					clk.hook.Store(&fn)
 				}
-				fl.g.release <- oc
+				if kw := fl.g.key; lateTh == 0 && registered[kw] == fl && r.chance(25) {
+					// a writer is INSIDE the key's bucket critical section (its Compute function is running)
+					// when the loader returns: the load's store step has to wait for the bucket, the write
+					// takes effect first and supersedes the load, whose value must then not be installed
+					wv := val()
+					inval := r.chance(35)
+					inside := make(chan struct{})
+					releaseW := make(chan struct{})
+					doneW := make(chan struct{})
+					go func() {
+						defer close(doneW)
+						c.Compute(kw, func(int, bool) (int, otter.ComputeOp) {
+							close(inside)
+							<-releaseW
+							if inval {
+								return 0, otter.InvalidateOp
+							}
+							return wv, otter.WriteOp
+						})
+					}()
+					select {
+					case <-inside:
+					case <-time.After(5 * time.Second):
+					}
+					fl.g.release <- oc
+					time.Sleep(3 * time.Millisecond)
+					close(releaseW)
+					<-doneW
+					fl.superseded = true
+					delete(registered, kw)
+					if inval {
+						t.line("LI %d", kw)
+					} else {
+						t.line("LW %d %d", kw, wv)
+					}
+					sum.Dist["write_parked_across_loader_return"]++
+				} else {
+					fl.g.release <- oc
+				}
 				rs := collect(40 * time.Millisecond)
 				if lateTh != 0 {
 					if clk.hook.Swap(nil) != nil {
